@@ -41,7 +41,7 @@ class OsuToSM(ConvertBase):
         sms.background = osu.background_file_name
         sms.sample_start = osu.preview_time
         sms.sample_length = 10
-        sms.offset = 0.0
+        sms.offset = sm.bpms.first_offset()
 
         sm.chart_type = SMMapChartTypes.get_type(osu.stack().column.max() + 1)
 
